@@ -638,12 +638,10 @@ func (this *Writer) processBlock() error {
 
 	// Assign optimal number of tasks and jobs per task (if the number of blocks is known)
 	if nbTasks > 1 {
-		// Limit the number of jobs if there are fewer blocks that this.jobs
+		// Limit the number of tasks to the number of buffered blocks.
 		// It allows more jobs per task and reduces memory usage.
-		if this.nbInputBlocks > 0 {
-			nbTasks = min(nbTasks, this.nbInputBlocks)
-		}
-
+		// Do not rely on the (advisory) input size: all buffered blocks must be encoded.
+		nbTasks = min(nbTasks, (this.available+this.blockSize-1)/this.blockSize)
 		jobsPerTask, _ = internal.ComputeJobsPerTask(make([]uint, nbTasks), uint(this.jobs), uint(nbTasks))
 	} else {
 		jobsPerTask = []uint{uint(this.jobs)}
